@@ -4,6 +4,7 @@ import (
 	"fmt"
 	"go/constant"
 	"go/types"
+	"os"
 	"strconv"
 	"strings"
 
@@ -385,6 +386,15 @@ func (x *FnExec) localByName(fr *frame, name string, c *evalCtx) (Val, bool) {
 		}
 	}
 	if found == nil {
+		if os.Getenv("TVC_DEBUG_NAMES") != "" {
+			fmt.Fprintf(os.Stderr, "localByName(%s): not found; block=%d at=%v\n", name, c.block.Index, c.at)
+			for _, in := range c.block.Instrs {
+				if d, ok := in.(*ssa.DebugRef); ok && d.Object() != nil && d.Object().Name() == name {
+					_, inEnv := c.env[d.X]
+					fmt.Fprintf(os.Stderr, "   debugref X=%s inEnv=%v isAddr=%v precedes=%v\n", d.X.Name(), inEnv, d.IsAddr, c.at != nil && precedes(c.block, d, c.at))
+				}
+			}
+		}
 		return Val{}, false
 	}
 	v := x.value(fr, c.env, found)
